@@ -26,7 +26,7 @@ from olvc.interp import IRaise
 from olvc.oblig import paths_or_undecided
 from olvc.runner import explore
 from olvc.sym import Opaque, Seg, SInt, ctx, tagstr
-from olvc.tmpl import Fn, Hole, Join, Tmpl, tcat
+from olvc.tmpl import Fn, Hole, Join, Tmpl, as_tmpl, tcat
 from spec import pygrammar as G
 from suites import c03
 
@@ -225,6 +225,46 @@ def g_constant(R, tier):
     for p in explore(run_other):
         ok = p.kind == "ok" and isinstance(p.value[1], Hole) and p.value[1].tag == "repr(value)" and not p.value[0]
         R.check(f"{base}/other-is-repr", ok, repr(p.value))
+
+    # float / complex: repr(value) with the token `inf` rewritten and NOTHING else done to it
+    # (the assumed contract of repr: its text parses back to the value)
+    for vcls in (float, complex):
+        def run_num(c, vcls=vcls):
+            m = Machine()
+            v = Opaque("value", object, truthy=None, is_const=lambda o, k: False, repr=lambda o: Hole("repr(value)", "text"))
+            v.cands = frozenset([vcls])
+            gen = m.call_value(eu.unparse_Constant, ast.Constant(value=v), "'")
+            return CU.drive(gen)
+        paths = explore(run_num)
+        if paths_or_undecided(R, f"{base}/{vcls.__name__}/paths", paths):
+            for p in paths:
+                want = Tmpl([Fn("replace", Hole("repr(value)", "text"), ("inf", "1e309"))])
+                ok = p.kind == "ok" and not p.value[0] and repr(as_tmpl(p.value[1])) == repr(want)
+                R.check(f"{base}/{vcls.__name__}-is-repr-with-inf-rewritten-and-nothing-else", ok, repr(p.value), replay=dict(kind="const", name=f"{vcls.__name__}:family"))
+    # bounded family of finite floats / complex numbers through the real function, natively
+    fam = []
+    for m_ in (1.0, 2.0, 2.5, 0.1, 1 / 3, 123456789.0, 9007199254740993.0):
+        for e_ in (-320, -300, -100, -10, -7, -5, -4, 0, 5, 10, 15, 16, 17, 20, 21, 22, 23, 100, 300, 308):
+            try:
+                fam.append(m_ * 10.0 ** e_)
+            except OverflowError:
+                pass
+    fam += [0.0, -0.0, 1e16, 1e22, 1e23, 5e-324, 2.2250738585072014e-308, 1.7976931348623157e308, 100.0, 1000000.0, 120.0, 0.5, 1e-05, 0.0001]
+    # (complex constants as the parser produces them: imaginary literals, real part 0.0, sign by UnaryOp)
+    famc = [complex(0.0, b) for b in (0.0, 1.0, 2.0, 1e20, 1e-10, 200.0, 2.5, 1e22, 5e-324, 1.7976931348623157e308, 120.0)]
+    bad = None
+    for val in fam + [-x for x in fam] + famc:
+        try:
+            text = CU.drive(Machine().call_value(eu.unparse_Constant, ast.Constant(value=val), "'"))[1] if False else eu.expr_unparse(ast.Constant(value=val))
+            back = ast.literal_eval(ast.parse(text, mode="eval").body) if not isinstance(val, complex) else eval(text, {})  # noqa: S307
+            same = type(back) is type(val) and (back == val) and (repr(back) == repr(val))
+        except Exception as e:  # noqa: BLE001
+            same, text = False, f"{type(e).__name__}: {e}"
+        if not same:
+            bad = (val, text)
+            break
+    R.bounded(f"{base}/bounded/finite-floats-and-complex-round-trip", bad is None,
+              f"{len(fam) * 2 + len(famc)} values" if bad is None else f"{bad[0]!r} is written {bad[1]!r}", replay=dict(kind="const", name="float:family"))
 
     # the assumed contract of repr covers finite values only: the exceptional float values
     # are singletons, checked by executing the real function on each of them
@@ -505,6 +545,12 @@ def replay_char(rp):
 def replay_const(rp):
     inf = float("inf")
     val = {"float:+inf": inf, "complex:inf-imag": complex(0, inf)}.get(rp["name"])
+    if val is None and rp["name"].endswith(":family"):
+        for val in (1e20, 2.0, 1e-10, 2.5e300, 120.0, 1e16, 1e22, 0.1, 1e20j, 200j, 2.5j):
+            ok, text, why = _rt(ast.Constant(value=val))
+            if not ok:
+                return dict(reproduced=True, input=f"Constant({val!r})", output=text, why=why)
+        return dict(reproduced=False)
     if val is None:
         return dict(reproduced=False)
     ok, text, why = _rt(ast.Constant(value=val))
